@@ -5,7 +5,7 @@
            | LV <RC|SC> { | <lvop> }                          lvop ::= A r v | M r a b | D r a b | P r | N r | T d
    obs   ::= OK { / I cnt {f s} { M i ( NONE | T t { K a ( S v mono | L v valid ) } ) } }      for OBS
            | OK { P L v valid }                                                                  for LV *)
-From V Require Export C17.Spec.
+From V Require Export C17.Spec C17.SpecRace.
 Local Open Scope Z_scope.
 
 Inductive case :=
@@ -187,14 +187,14 @@ Definition parse_lv_obs (l : list tok) : option (list point) :=
   end.
 
 (* ------------------------------------------------------------------ entry points *)
-Definition run_model (l : list tok) : list tok :=
+Definition run_model_seq (l : list tok) : list tok :=
   match parse_case l with
   | Some (CObs c ops) => print_obs (run_print c ops)
   | Some (CLv sc ops) => print_lv (lv_run sc ops)
   | None => bad_case
   end.
 
-Definition run_spec (l obs : list tok) : list tok :=
+Definition run_spec_seq (l obs : list tok) : list tok :=
   match parse_case l with
   | Some (CObs c ops) => match parse_obs obs with Some o => spec_obs c ops o | None => fail "observation:unparsable" end
   | Some (CLv sc ops) => match parse_lv_obs obs with Some o => spec_lv sc ops o | None => fail "observation:unparsable" end
@@ -204,7 +204,7 @@ Definition run_spec (l obs : list tok) : list tok :=
 (* branch tag for coverage accounting *)
 Definition final_sstate (c : cfg) (ops : list op) : sstate := fold_left (sstep c) ops sinit.
 Definition any_instr (c : cfg) (p : nat -> bool) : bool := existsb p (seq 0 (ninstr c)).
-Definition run_tag (l : list tok) : list tok :=
+Definition run_tag_seq (l : list tok) : list tok :=
   match parse_case l with
   | Some (CObs c ops) =>
       let ss := final_sstate c ops in
@@ -221,3 +221,104 @@ Definition run_tag (l : list tok) : list tok :=
            bs (if existsb (fun o => match o with LPrint _ => true | _ => false end) ops then "prints" else "noprint"))]
   | None => bad_case
   end.
+
+(* ------------------------------------------------------------------ ORACE cases (engine E-sched) and the trace convention
+   The runner hands every case over as  <case> || <event history of the implementation>  (empty for OBS and LV cases).
+     ORACE m k1..km | I <rop> ; ... | T <rop> ; ... | T ... | s <schedule>        rop ::= A i f s | R i f s | X i | C r
+   history: entries "<tid> <event> <args>" separated by ";", tid -1 = the controller; the entries of the scheduler shim itself
+   (lock, unlock, xchg, st, yield, ...) are skipped.  The observation proper is the tag OK (or what the shim reports). *)
+Fixpoint cut_bars (l : list tok) : list tok * list tok :=
+  match l with
+  | [] => ([], [])
+  | t :: r => if is_tag "||" t then ([], r) else let '(a, b) := cut_bars r in (t :: a, b)
+  end.
+
+Definition parse_rop (m : Z) (l : list tok) : option rop :=
+  match l with
+  | [t; TZ x; TZ y; TZ z] =>
+      if in_range x 0 m && in_range y 0 2 && in_range z 0 4 then
+        if is_tag "A" t then Some (RAdd (znat x, y, z)) else if is_tag "R" t then Some (RRem (znat x, y, z)) else None
+      else None
+  | [t; TZ x] =>
+      if is_tag "X" t then (if in_range x 0 m then Some (RDestroy (znat x)) else None)
+      else if is_tag "C" t then (if in_range x 0 2 then Some (RCollect x) else None)
+      else None
+  | _ => None
+  end.
+Definition parse_rops (m : Z) (sec : list tok) : option (list rop) :=
+  match sec with
+  | [] => None
+  | [_] => Some []
+  | _ :: rest => map_opt (parse_rop m) (split_toks ";" rest)
+  end.
+Fixpoint parse_threads (m : Z) (secs : list (list tok)) : option (list (list rop)) :=
+  match secs with
+  | [] => Some []
+  | sec :: rest =>
+      match sec with
+      | t :: _ =>
+          if is_tag "s" t then (match rest with [] => Some [] | _ => None end)
+          else if is_tag "T" t then
+            match parse_rops m sec, parse_threads m rest with Some ops, Some ths => Some (ops :: ths) | _, _ => None end
+          else None
+      | [] => None
+      end
+  end.
+Definition parse_race (l : list tok) : option (list rop * list (list rop)) :=
+  match split_toks "|" l with
+  | (_ :: TZ m :: kinds) :: isec :: rest =>
+      if in_range m 1 5 && Nat.eqb (length kinds) (znat m) then
+        match isec with
+        | t :: _ => if is_tag "I" t
+                    then match parse_rops m isec, parse_threads m rest with Some i, Some ths => Some (i, ths) | _, _ => None end
+                    else None
+        | [] => None
+        end
+      else None
+  | _ => None
+  end.
+
+Definition parse_event (l : list tok) : list ev :=
+  match l with
+  | [TZ t; n; TZ r] =>
+      if is_tag "bc" n then [EBC t r] else if is_tag "ec" n then [EEC t r]
+      else if is_tag "bx" n then [EBX t (znat r)] else if is_tag "rx" n then [ERX t (znat r)] else []
+  | [TZ t; n; TZ i; TZ f; TZ s] =>
+      let k := (znat i, f, s) in
+      if is_tag "call" n then [ECall t k] else if is_tag "done" n then [EDone t k]
+      else if is_tag "ba" n then [EBA t k] else if is_tag "ra" n then [ERA t k]
+      else if is_tag "br" n then [EBR t k] else if is_tag "rr" n then [ERR t k] else []
+  | _ => []
+  end.
+Definition parse_history (tr : list tok) : list ev := flat_map parse_event (split_toks ";" tr).
+
+Definition is_race (main : list tok) : bool := match main with t :: _ => is_tag "ORACE" t | [] => false end.
+
+Definition run_model (l : list tok) : list tok :=
+  let '(main, _) := cut_bars l in
+  if is_race main then (match parse_race main with Some _ => [tag "OK"] | None => bad_case end) else run_model_seq main.
+
+Definition run_spec (l obs : list tok) : list tok :=
+  let '(main, tr) := cut_bars l in
+  if is_race main then
+    match parse_race main with
+    | Some (init, threads) =>
+        spec_race init threads (match obs with [t] => is_tag "OK" t | _ => false end) (parse_history tr)
+    | None => bad_case
+    end
+  else run_spec_seq main obs.
+
+Definition run_tag (l : list tok) : list tok :=
+  let '(main, _) := cut_bars l in
+  if is_race main then
+    match parse_race main with
+    | Some (init, threads) =>
+        let ops := concat threads in
+        [TT (bs "orace_" ++
+             bs (if existsb (fun o => match o with RDestroy _ => true | _ => false end) ops then "destroy"
+                 else if existsb (fun o => match o with RRem _ => true | _ => false end) ops then "remove"
+                 else if existsb (fun o => match o with RAdd _ => true | _ => false end) ops then "add"
+                 else "collect_only"))]
+    | None => bad_case
+    end
+  else run_tag_seq main.
